@@ -67,6 +67,12 @@ impl Chooser {
         taken
     }
 
+    /// A switch that is NOT a choice point of the exploration (it produces malformed files and is only
+    /// meant to be set on purpose through `with_classes`): true iff the class is forced to a non-zero option.
+    pub fn switch(&self, class: &str) -> bool {
+        self.at_class.get(class).map(|o| *o != 0).unwrap_or(false)
+    }
+
     /// non-zero choices actually taken, as (point index, class, option)
     pub fn deviations(&self) -> Vec<(usize, &'static str, usize)> {
         self.log.iter().enumerate().filter(|(_, p)| p.taken != 0).map(|(i, p)| (i, p.class, p.taken)).collect()
